@@ -72,8 +72,21 @@ pub fn run(cfg: &Cfg) -> i32 {
         // (4) the CLI's own derivation with -O (modern only)
         let cli_o = if classic { None } else { Some(compile_cli_modern(&main_text, Some(&main_path), &dirs, true)) };
         let cli_plain = if classic { None } else { Some(compile_cli_modern(&main_text, Some(&main_path), &dirs, false)) };
+        // counterfactual for the listed cl22 finding (frontend optimiser leaks generated names and values computed from them):
+        // is the same program, built with that optimiser off, identical under two values of the name counter?
+        let cl22_stable_without_frontend_opt = if d == Dialect::Cl22 {
+            use std::sync::atomic::Ordering;
+            let mo = ModernOpts { optimize: true, frontend_opt: false, post_opt: true };
+            chialisp::compiler::gensym::ARGNAME_CTR.store(7, Ordering::SeqCst);
+            let x = compile_modern_explicit(&main_text, &main_path, &dirs, &mo);
+            chialisp::compiler::gensym::ARGNAME_CTR.store(123_456, Ordering::SeqCst);
+            let y = compile_modern_explicit(&main_text, &main_path, &dirs, &mo);
+            matches!((x, y), (Ok(a), Ok(b)) if a.prog == b.prog)
+        } else {
+            false
+        };
         out.end(&id);
-        let rec = json!({"id": id, "dialect": d.name(), "dir": dir, "main": main_path, "dirs": dirs, "source": main_text, "split": split,
+        let rec = json!({"id": id, "dialect": d.name(), "dir": dir, "main": main_path, "dirs": dirs, "source": main_text, "split": split, "cl22_stable_without_frontend_opt": cl22_stable_without_frontend_opt,
             "args": case.args.first().map(|a| a.text()).unwrap_or_else(|| "()".into()),
             "lib": res_j(&lib), "file": file_j, "cli_O": cli_o.as_ref().map(res_j), "cli_plain": cli_plain.as_ref().map(res_j)});
         writeln!(casefile, "{}", rec).expect("write case");
